@@ -247,6 +247,21 @@ def string_jobs():
                                                '(g_k >= %s && g_k < self->length_) ==> self->storage_[g_k] == self->storage_[g_k - %s]' % (O_LEN, O_LEN)],
                            assigns=FRa, frees=['self->storage_']),
                       'appending a String to itself doubles it and never reads released storage', cex_K=4))
+    EQL = ST + '_op_eq__const_char_p_c'
+    PO = '__CPROVER_POINTER_OFFSET(str)'
+    for alloc, tag in ((True, 'allocated'), (False, 'empty')):
+        out.append(st_job('equals-literal.' + tag, 'operator==(const char *)', EQL,
+                          dict(buffers=[('str', 'g_n + 1')], requires=st_wf(alloc) + ['g_n <= 0x1000000u', 'str[g_n] == 0'],
+                               ghost_returns=['g_k = offset'],
+                               ensures=['__CPROVER_return_value == 0 || __CPROVER_return_value == 1', 'g_k <= g_n && g_k <= self->length_',
+                                        'g_j < g_k ==> self->storage_[g_j] == __CPROVER_old(str)[g_j]',
+                                        '__CPROVER_return_value == (__CPROVER_old(str)[g_k] == 0 && self->length_ == g_k)'],
+                               assigns=['g_k'],
+                               loops={0: dict(invariant=['__CPROVER_same_object(str, __CPROVER_loop_entry(str))', '%s == (long long)offset' % PO, 'offset <= g_n', 'offset <= self->length_',
+                                                         'g_j < offset ==> self->storage_[g_j] == __CPROVER_loop_entry(str)[g_j]'],
+                                              decreases='g_n - offset', assigns='str, offset')}),
+                          'comparison with a NUL-terminated literal reads only the literal and the String, also for an empty String', nocopy=True,
+                          ghosts=LC.GH + [('unsigned int', 'g_n'), ('unsigned int', 'g_j')], cex_K=4))
     out.append(st_job('StepBack', 'StepBack', ST + '_StepBack',
                       dict(requires=W + [OLDREQ], ensures=st_ens() + ['self->length_ == (len <= %s ? %s - len : %s)' % (O_LEN, O_LEN, O_LEN), 'g_k < self->length_ ==> self->storage_[g_k] == g_old'],
                            assigns=['self->length_', '__CPROVER_object_whole(self->storage_)']),
